@@ -112,26 +112,47 @@ Proof.
     apply trunc_add_pow; lia.
 Qed.
 
-(* the helper function signExtend(v, w, nw) of helper.py *)
+(* the helper function signExtend(v, w, nw) of helper.py.
+   The proof does not follow the generated if-structure: it normalises the masks (`&((1<<w)-1)` or `%(1<<w)`) to trunc,
+   rewrites the sign-bit expression to b2z (2^(w-1) <=? v), splits on THAT comparison, evaluates whatever closed tests
+   (`1 =? 1`, `0 =? 0`, `1 =? 0`, ...) the translated code makes on it, and simplifies `x | (0 << w)`.  So it survives
+   renamed / introduced locals, swapped branches, early returns and a fill pattern computed on one path only. *)
+Lemma mod_shiftl_trunc x w : 0 <= w -> x mod Z.shiftl 1 w = trunc w x.
+Proof. intros; rewrite Z.shiftl_1_l, trunc_mod by lia; reflexivity. Qed.
+
+Ltac norm_masks :=
+  unfold py_shl, py_shr in *; cbv zeta;
+  repeat match goal with |- context [Z.land ?x (Z.shiftl 1 ?w - 1)] => change (Z.land x (Z.shiftl 1 w - 1)) with (trunc w x) end;
+  rewrite ?mod_shiftl_trunc by lia.
+
+Ltac eval_closed_tests :=
+  repeat match goal with
+  | |- context [if ?c then _ else _] =>
+      let c' := eval vm_compute in c in
+      match c' with true => idtac | false => idtac end; progress change c with c'; cbv iota
+  end.
+
 Lemma signExtend_char w nw v : 0 < w <= nw -> 0 <= v < 2 ^ w ->
   signExtend v w nw = trunc nw (sgn w v) /\ 0 <= signExtend v w nw < 2 ^ nw.
 Proof.
-  intros Hw Hv. unfold signExtend. cbv zeta. unfold py_shl, py_shr.
-  change (Z.land v (Z.shiftl 1 w - 1)) with (trunc w v). rewrite (trunc_small w v) by lia.
-  change (Z.land (Z.shiftr v (w - 1)) 1) with (bitZ v (w - 1)).
-  rewrite bitZ_b2z, testbit_high by lia.
+  intros Hw Hv. unfold signExtend. norm_masks. rewrite !(trunc_small w v) by lia.
+  repeat match goal with |- context [Z.land (Z.shiftr v (w - 1)) 1] => change (Z.land (Z.shiftr v (w - 1)) 1) with (bitZ v (w - 1)) end.
+  rewrite ?bitZ_b2z, ?testbit_high by lia.
   assert (Hpw : 2 ^ w = 2 * 2 ^ (w - 1)).
   { replace w with (1 + (w - 1)) at 1 by lia. rewrite Z.pow_add_r by lia. reflexivity. }
   pose proof (pow2_pos (w - 1) ltac:(lia)) as Hp1.
   pose proof (pow2_le w nw ltac:(lia)) as Hle.
   assert (Hnw : 2 ^ nw = 2 ^ (nw - w) * 2 ^ w).
   { rewrite <- Z.pow_add_r by lia. f_equal; lia. }
-  unfold sgn. destruct (Z.leb_spec (2 ^ (w - 1)) v) as [Hge | Hlt]; cbn [b2z Z.eqb].
-  - destruct (Z.ltb_spec v (2 ^ (w - 1))); [lia|].
-    change ((1 =? 1)%positive) with true. cbv iota.
-    rewrite Z.shiftl_1_l, Z.lor_comm. rewrite lor_add_disjoint by lia.
+  pose proof (pow2_pos (nw - w) ltac:(lia)) as Hp2.
+  assert (Hsg : sgn w v = if 2 ^ (w - 1) <=? v then v - 2 ^ w else v).
+  { unfold sgn. destruct (Z.leb_spec (2 ^ (w - 1)) v), (Z.ltb_spec v (2 ^ (w - 1))); lia. }
+  rewrite Hsg. clear Hsg.
+  destruct (Z.leb_spec (2 ^ (w - 1)) v) as [Hge | Hlt]; cbn [b2z]; eval_closed_tests;
+    rewrite ?Z.shiftl_0_l, ?Z.lor_0_r, ?Z.lor_0_l, ?Z.shiftl_1_l.
+  - (* negative: v | (((1 << (nw-w)) - 1) << w), in either operand order *)
+    first [ rewrite lor_add_disjoint by lia | rewrite Z.lor_comm, lor_add_disjoint by lia ].
     replace (v - 2 ^ w) with (v - 2 ^ w + 2 ^ nw + (-1) * 2 ^ nw) by lia.
-    rewrite trunc_add_pow by lia. rewrite trunc_small by lia. lia.
-  - destruct (Z.ltb_spec v (2 ^ (w - 1))); [|lia].
-    cbv iota. rewrite Z.shiftl_0_l, Z.lor_0_r. rewrite trunc_small by lia. lia.
+    rewrite trunc_add_pow by lia. rewrite trunc_small by nia. nia.
+  - rewrite trunc_small by lia. lia.
 Qed.
